@@ -49,6 +49,9 @@ func judgeAfter(in, prev []byte) (bool, string) {
 	if err := p.UnmarshalBinary(b); err != nil {
 		return false, "" // nothing is asserted about rejected inputs
 	}
+	if !bytes.Equal(b, in) {
+		return true, fmt.Sprintf("decoding %x changed the caller's buffer to %x (a received frame is verified, forwarded or logged from that buffer)", in, b)
+	}
 	for i := range b {
 		b[i] = ^b[i] // the receive buffer is reused: "verify, forward or log a received frame without it changing"
 	}
